@@ -125,6 +125,9 @@ class C15Monitor(object):
                     bad("infeasible cap (limit < 1/n) must give no weights")
                 return
             ws = pd.Series(w)
+            if ws.isnull().any():
+                bad("capped weights contain NaN (prior %s, limit %r)" % (prior, lim), nan=True, zero_weight_prior=any(v == 0 for v in prior.values()))
+                return
             if (ws > lim + 1e-9).any() or abs(ws.sum() - sum(prior.values())) > 1e-9:
                 bad("capped weights must respect the cap %r and preserve the total %r (prior %s)" % (lim, sum(prior.values()), prior))
         elif a == "LimitDeltas":
